@@ -52,6 +52,7 @@ func (x *Exec) verifyUnit(fn *ssa.Function) {
 	x.pathN = 0
 	x.returned = 0
 	x.initialHeaps = map[string]string{}
+	x.initialTrace, x.initialStore = "", ""
 	x.totalSteps = 0
 	x.stepBudget = 400000
 	x.budgetHit = false
@@ -236,6 +237,26 @@ func (x *Exec) frameCheck(st *State, fr *Frame, c *Contract, in *ssa.Return) {
 	for _, p := range fr.fn.FreeVars {
 		checkCell(p.Name(), fr.vals[p])
 	}
+	for _, k := range []string{"trace", "store", "exists"} {
+		cur, ok := st.ghost[k]
+		if !ok {
+			continue
+		}
+		key := k
+		if k == "exists" {
+			key = "store"
+		}
+		if allowedGhost[key] {
+			continue
+		}
+		init := map[string]string{"trace": x.initialTrace, "store": x.initialStore, "exists": x.initialStore + "_ex"}[k]
+		if old, ok := fr.entry.ghost[k]; ok {
+			init = old.(TV).E
+		}
+		if init != cur.(TV).E {
+			x.oblige(st, fr, "frame.ghost."+k, "frame", "frame", tEq(init, cur.(TV).E), in, nil)
+		}
+	}
 	for k, cur := range st.ghost {
 		if !(strings.HasPrefix(k, "rem:") || strings.HasPrefix(k, "out:")) || allowedGhost[k] {
 			continue
@@ -296,6 +317,12 @@ func (x *Exec) modTarget(st *State, fr *Frame, ex ast.Expr, f func(kind, sort, r
 				env := x.newEnv(st, fr, nil)
 				v := env.eval(n.Args[0])
 				x.ghostTarget(st, v.V, id.Name, f)
+				return
+			case "trace":
+				f("ghost:trace", "", "", nil)
+				return
+			case "files":
+				f("ghost:store", "", "", nil)
 				return
 			case "heap":
 				if tid, ok := n.Args[0].(*ast.Ident); ok {
@@ -417,6 +444,13 @@ func (x *Exec) callByContract(st *State, fr *Frame, callee *ssa.Function, c *Con
 						st.cells[cell] = x.havocLike(st, cell.name, cell.typ, st.cells[cell])
 						x.keepLen = false
 					}
+				case kind == "ghost:trace":
+					x.traceGet(st)
+					st.ghost["trace"] = TV{x.traceSort(), st.fresh("trace", x.traceSort())}
+				case kind == "ghost:store":
+					x.storeGet(st)
+					st.ghost["store"] = TV{x.storeSort(), st.fresh("store", x.storeSort())}
+					st.ghost["exists"] = TV{"(Array " + SSeqI + " Bool)", st.fresh("exists", "(Array "+SSeqI+" Bool)")}
 				case strings.HasPrefix(kind, "ghost:"):
 					key := strings.TrimPrefix(kind, "ghost:")
 					n := x.freshBytes(st, "g")
@@ -470,6 +504,10 @@ func (x *Exec) invokeSymbolic(st *State, fr *Frame, cc *ssa.CallCommon, iv Iface
 			return
 		}
 	}
+	// calls on caller-supplied objects without a modelled contract are recorded
+	// on the ghost trace (kind 9, path = method name) so that contracts can say
+	// "was not called"
+	x.traceAdd(st, 9, x.w.StrLit(cc.Method.Name()), "0", sEmpty(SSeqI))
 	x.note("extunknown: interface method " + cc.Method.FullName())
 	x.extUsed["UNKNOWN interface method "+cc.Method.FullName()] = true
 	x.havocForUnknown(st, args)
